@@ -1307,7 +1307,12 @@ def _c19_trunc32(v, params):
     exp, obs = _vget(v, "expected_stack"), _vget(v, "observed_stack")
     if not exp or not obs or len(exp) != len(obs) or exp == obs:
         return False
-    return all(o == e or o == _trunc32(e) for e, o in zip(exp, obs))
+    # a float/double converted to int32 when it does not fit gives the x86 'integer indefinite' value
+    isfloat = at.startswith("read:") and at[-1] in "fd"
+
+    def same(e, o):
+        return o == e or o == _trunc32(e) or (isfloat and not (-(1 << 31) <= e < (1 << 31)) and o == -(1 << 31))
+    return all(same(e, o) for e, o in zip(exp, obs))
 
 
 class C19(runner.Check):
